@@ -40,14 +40,21 @@ def run(c: Check):
     for ch in chains:
         n0 = len(ch["descs"][0]["nodes"])
         hist = [dict(op="full", n=i) for i in range(n0)] + [dict(op="raw", n=i) for i in range(n0)]
-        for d in ch["descs"]:
-            cases.append(dict(desc=d, histories=[hist], chain=ch))
+        for k_, d in enumerate(ch["descs"]):
+            case = dict(desc=d, histories=[hist], chain=ch)
+            if k_ == 0 and n0 >= 2:
+                # pairs (default, value) for the default test of configuration-valued defaults; equal classes first
+                same = [(i, j) for i in range(n0) for j in range(n0) if i != j and d["nodes"][i]["cls"] == d["nodes"][j]["cls"]]
+                pool = same * 3 + [(i, j) for i in range(n0) for j in range(n0)]
+                case["default_pairs"] = [list(c.rng.choice(pool)) for _ in range(4)]
+            cases.append(case)
     chunks = [cases[i::16] for i in range(16)]
 
     def drive(chunk):
         if not chunk:
             return []
-        return run_impl("drive_ident.py", dict(cases=[dict(desc=x["desc"], histories=x["histories"]) for x in chunk]),
+        return run_impl("drive_ident.py", dict(cases=[dict(desc=x["desc"], histories=x["histories"],
+                                                           default_pairs=x.get("default_pairs")) for x in chunk]),
                         timeout=1500)
 
     with ThreadPoolExecutor(max_workers=16) as ex:
@@ -62,7 +69,8 @@ def run(c: Check):
             c.count("build-failed")
             continue
         if identgen.in_model(r["export"]) and not r["answers"][0][0].startswith("build-exc"):
-            coq_cases.append(dict(export=r["export"], ops=x["histories"][0], answers=r["answers"][0], desc=x["desc"]))
+            coq_cases.append(dict(export=r["export"], ops=x["histories"][0], answers=r["answers"][0], desc=x["desc"],
+                                  default_pairs=x.get("default_pairs"), default_test=r.get("default_test")))
     # oracle: along each chain the identifiers of the original nodes never change
     for ch in chains:
         xs = [x for x in cases if x["chain"] is ch]
@@ -97,6 +105,25 @@ def run(c: Check):
                         lambda k: identgen.g_icase(k["export"], k["ops"], k["answers"]), "check_case", shard=60)
     c.extra["disagreeing_cases"] = [dict(desc=coq_cases[i]["desc"], ops=coq_cases[i]["ops"],
                                          answers=coq_cases[i]["answers"]) for i in bad[:5]]
+    # the default test for defaults that hold configurations (is_default of the repaired implementation = is_default_sig
+    # of the model), on pairs (default, value) of configurations of the exported graphs
+    from vcommon import gnat, glist
+    dcases = [k for k in coq_cases if k.get("default_pairs") and k.get("default_test") is not None]
+    got = c.nat_shards("default", HEADER, dcases,
+                       lambda k: "(" + identgen.g_icase(k["export"], [], []) + ", "
+                       + glist(f"({gnat(d_)}, {gnat(v_)})" for d_, v_ in k["default_pairs"]) + ")",
+                       "default_pairs_icase", shard=60)
+    for k, ans in zip(dcases, got):
+        if ans is None:
+            continue
+        impl = [1 if t else 0 for t in k["default_test"]]
+        for (d_, v_), a_, i_ in zip(k["default_pairs"], ans, impl):
+            c.count("default-test:" + ("same-node" if d_ == v_ else "is-default" if i_ else "differs"))
+        if ans != impl:
+            c.violation("C02:default-test-differs-from-model",
+                        "HashComputer.is_default on a pair (default, value) of configurations answers differently from the model's "
+                        "is_default_sig (both hashed alike)", dict(chain=[k["desc"]], kinds=[], pairs=k["default_pairs"],
+                                                                    implementation=impl, model=ans))
     # directed probe outside the modelled domain: configuration-valued defaults (compared through TypeConfig.__eq__)
     pr = run_impl("drive_cfgdefault.py", {}, timeout=300)
     c.count("probe:config-valued-default")
